@@ -298,4 +298,56 @@ theorem roundtrip_timecourse (valid : Drop → Bool) (tc : List (Nat × List Dro
   rw [List.mergeSort_of_pairwise (keys_sorted f 0 tc.length (by omega) hk)]
   exact hd
 
+theorem encTL_struct (valid : Drop → Bool) (tl : List (List (Nat × Drop))) (k : Nat) (f : File)
+    (hwf : ∀ tr ∈ tl, ∀ p ∈ tr, WF p.2 = true) (hv : ∀ tr ∈ tl, ∀ p ∈ tr, valid p.2 = true)
+    (h : (tl.zipIdx k).mapM encEntryTL = .ok f) :
+    f.map (·.1) = (List.range' k tl.length).map pad6 ∧
+      f.mapM (fun e => decodeTrack valid e.2.2) = .ok tl := by
+  induction tl generalizing k f with
+  | nil =>
+    simp only [List.zipIdx_nil, List.mapM_nil, pure, Except.pure] at h
+    cases h; exact ⟨rfl, rfl⟩
+  | cons tr tl ih =>
+    simp only [List.zipIdx_cons, List.mapM_cons, bind, Except.bind] at h
+    cases he : encEntryTL (tr, k) with
+    | error e => rw [he] at h; cases h
+    | ok entry =>
+      rw [he] at h
+      simp only at h
+      cases hr : (tl.zipIdx (k + 1)).mapM encEntryTL with
+      | error e => rw [hr] at h; cases h
+      | ok rest =>
+        rw [hr] at h
+        simp only [pure, Except.pure] at h
+        cases h
+        obtain ⟨ih1, ih2⟩ := ih (k + 1) rest (fun m' hm' => hwf m' (List.mem_cons_of_mem _ hm'))
+          (fun m' hm' => hv m' (List.mem_cons_of_mem _ hm')) hr
+        simp only [encEntryTL] at he
+        cases hs : encodeTrack tr with
+        | error e => rw [hs] at he; cases he
+        | ok s =>
+          rw [hs] at he
+          cases he
+          have hdec := roundtrip_track valid tr s (hwf tr List.mem_cons_self) (hv tr List.mem_cons_self) hs
+          refine ⟨?_, ?_⟩
+          · simp only [List.map_cons, List.length_cons, List.range'_succ, ih1]
+          · rw [List.mapM_cons, ih2]
+            simp [hdec, bind, Except.bind, pure, Except.pure]
+
+/-- **A track list with at most 10^6 tracks that can be written reads back equal**: same tracks,
+same order, every track with the same times and droplets. -/
+theorem roundtrip_tracklist (valid : Drop → Bool) (tl : List (List (Nat × Drop))) (f : File)
+    (hn : tl.length ≤ 10 ^ 6)
+    (hwf : ∀ tr ∈ tl, ∀ p ∈ tr, WF p.2 = true) (hv : ∀ tr ∈ tl, ∀ p ∈ tr, valid p.2 = true)
+    (h : encodeTL tl = .ok f) : decodeTL valid f = .ok tl := by
+  unfold encodeTL at h
+  obtain ⟨hk, hd⟩ := encTL_struct valid tl 0 f hwf hv h
+  unfold decodeTL
+  rw [List.mergeSort_of_pairwise (keys_sorted f 0 tl.length (by omega) hk)]
+  exact hd
+
+/-- beyond 10^6 members the sorted reading order is not the writing order (finding D13) -/
+theorem keys_unsorted_beyond_limit :
+    ¬ ([pad6 999999, pad6 1000000].Pairwise fun a b => lexLe a b = true) := by decide
+
 end DV.C08
